@@ -280,7 +280,7 @@ def expr_strategy(max_leaves=12, in_call=False):
         leaf = st.one_of(var, var, num, string, pyl, bq)
         ops = BINOPS_ALL
     else:
-        leaf = st.one_of(var, var, var, num, bq, level)
+        leaf = st.one_of(var, var, var, num, bq)  # `v[level]` is only a sentence as the whole response (see sentence_case)
         ops = BINOPS_TERM + ["=="]
 
     def extend(children):
@@ -294,7 +294,17 @@ def expr_strategy(max_leaves=12, in_call=False):
 def call_strategy(children):
     callee = st.sampled_from(["f", "np.log", "center", "a.b.c", "I"]).map(lambda n: ("var", n, None))
     kw = st.tuples(st.just("assign"), st.sampled_from(["k", "df", "ref"]).map(lambda n: ("var", n, None)), children)
-    args = st.lists(st.one_of(children, children, kw), min_size=0, max_size=3).map(tuple)
+    def unique_keywords(items):
+        seen, out = set(), []
+        for a in items:
+            if a[0] == "assign":
+                if a[1][1] in seen:
+                    continue  # a repeated keyword is not a sentence
+                seen.add(a[1][1])
+            out.append(a)
+        return tuple(out)
+
+    args = st.lists(st.one_of(children, children, kw), min_size=0, max_size=3).map(unique_keywords)
     plain = st.tuples(st.just("call"), callee, args)
     brace = st.tuples(st.just("call"), st.just(("var", "I", None)), st.tuples(children))
     return st.one_of(plain, plain, brace)
